@@ -9,6 +9,7 @@ import (
 	"encoding/binary"
 	"encoding/hex"
 	"encoding/json"
+	"fmt"
 	"math"
 	"sort"
 	"strings"
@@ -1270,6 +1271,13 @@ func classify(test, family string, data []byte, how string, out outcome) bool {
 		if strings.HasPrefix(h, "valid ") {
 			h = "valid"
 		}
+		if strings.HasPrefix(h, "chain ") {
+			f := strings.Fields(h)
+			h = "chain"
+			if len(f) > 1 && family == "wkb" {
+				h = "chain-" + f[1]
+			}
+		}
 		stats.Class(family + ":mut:" + h)
 	}
 	switch {
@@ -1299,3 +1307,376 @@ func classify(test, family string, data []byte, how string, out outcome) bool {
 }
 
 var _ = orb.Point{}
+
+// ---------------------------------------------------------------- deep nesting chains
+
+// genChainWKB builds a chain of nested collection / multi-* headers of depth up to len/9. The
+// member count claimed at every level is drawn from {1, 2, 100, 101, remaining/9, remaining/9+1,
+// a wrap-around count}, either the same rule at every level or a fresh draw per level: a decoder
+// that trusts a count because "that many members would still fit" allocates quadratically in the
+// depth. Chains of multi-* headers that END IN A VALID LEAF are re-scanned quadratically in TIME by
+// the unchanged tree when the outermost count is > 1, so they are kept to depth <= 600.
+func genChainWKB(t *rapid.T) ([]byte, string) {
+	total := rapid.OneOf(rapid.IntRange(9, 900), rapid.IntRange(900, 9000), rapid.IntRange(9000, MaxInput)).Draw(t, "chainlen")
+	kind := rapid.SampledFrom([]string{"collection", "collection", "multi-line", "multi-point", "multi-polygon", "mixed"}).Draw(t, "chainkind")
+	leafKind := rapid.SampledFrom([]string{"none", "none", "valid", "garbage"}).Draw(t, "leaf")
+	depth := total / 9
+	if depth < 1 {
+		depth = 1
+	}
+	if kind != "collection" && leafKind == "valid" && depth > 600 {
+		depth = 600
+	}
+	rule := rapid.SampledFrom([]int{-1, -1, 0, 1, 2, 3, 4, 4, 5, 6}).Draw(t, "countrule") // -1: fresh draw per level
+	leChain := rapid.Bool().Draw(t, "chainle")
+	mixOrder := rapid.IntRange(0, 3).Draw(t, "mixorder") == 0
+	typOf := map[string]uint32{"collection": 7, "multi-line": 5, "multi-point": 4, "multi-polygon": 6}
+	var leaf []byte
+	lastTyp := typOf[kind]
+	if kind == "mixed" {
+		lastTyp = 7
+	}
+	switch leafKind {
+	case "valid":
+		switch lastTyp {
+		case 7:
+			leaf = wkbHeader(leChain, 7, 0)
+		case 5:
+			leaf = wkbHeader(leChain, 2, 0)
+		case 4:
+			leaf = wkbPointPayload(leChain, 1)
+		case 6:
+			leaf = wkbHeader(leChain, 3, 0)
+		}
+	case "garbage":
+		leaf = rapid.SliceOfN(rapid.Byte(), 1, 40).Draw(t, "leafbytes")
+	}
+	out := make([]byte, 0, depth*9+len(leaf))
+	for k := 0; k < depth; k++ {
+		rem := uint32((depth-1-k)*9 + len(leaf))
+		r := rule
+		if r < 0 {
+			r = rapid.IntRange(0, 6).Draw(t, "lvl")
+		}
+		var cnt uint32
+		switch r {
+		case 0:
+			cnt = 1
+		case 1:
+			cnt = 2
+		case 2:
+			cnt = 100
+		case 3:
+			cnt = 101
+		case 4:
+			cnt = rem / 9
+		case 5:
+			cnt = rem/9 + 1
+		default:
+			cnt = drawWrapCount(t)
+		}
+		if k == 0 && rule == 0 && rapid.Bool().Draw(t, "topcount") {
+			cnt = uint32(depth + 1) // the re-scan shape: the outermost multi-* claims one member per level
+		}
+		typ := typOf[kind]
+		if kind == "mixed" {
+			typ = rapid.SampledFrom([]uint32{7, 7, 5, 4, 6, 3}).Draw(t, "lvltyp")
+		}
+		le := leChain
+		if mixOrder {
+			le = rapid.Bool().Draw(t, "lvlle")
+		}
+		out = append(out, wkbHeader(le, typ, cnt)...)
+	}
+	out = append(out, leaf...)
+	frame := ""
+	switch rapid.IntRange(0, 9).Draw(t, "chainframe") {
+	case 0:
+		out = append([]byte{0xe6, 0x10, 0, 0}, out...)
+		frame = " srid-prefix"
+	case 1:
+		out = []byte(hex.EncodeToString(out))
+		frame = " hex"
+	}
+	return clip(out), fmt.Sprintf("chain %s depth %d rule %d leaf %s%s", kind, depth, rule, leafKind, frame)
+}
+
+func genChainWKT(t *rapid.T) ([]byte, string) {
+	depth := rapid.OneOf(rapid.IntRange(1, 40), rapid.IntRange(40, 400), rapid.IntRange(400, 1500)).Draw(t, "depth")
+	open := rapid.SampledFrom([]string{"GEOMETRYCOLLECTION(", "GEOMETRYCOLLECTION (", "GEOMETRYCOLLECTION(POINT(1 2),", "GEOMETRYCOLLECTION(POINT EMPTY, "}).Draw(t, "open")
+	leaf := rapid.SampledFrom([]string{"POINT(1 2)", "", "GEOMETRYCOLLECTION EMPTY", "LINESTRING(1 2,3 4)", "x"}).Draw(t, "leaf")
+	closeN := depth + rapid.SampledFrom([]int{0, 0, 0, -1, 1, -depth}).Draw(t, "unbalance")
+	s := strings.Repeat(open, depth) + leaf + strings.Repeat(")", closeN)
+	if len(s) > MaxInput {
+		s = s[:MaxInput]
+	}
+	return []byte(s), fmt.Sprintf("chain depth %d", depth)
+}
+
+func genChainGeoJSON(t *rapid.T) ([]byte, string) {
+	depth := rapid.OneOf(rapid.IntRange(1, 40), rapid.IntRange(40, 400)).Draw(t, "depth")
+	extra := rapid.SampledFrom([]string{"", "", `{"type":"Point","coordinates":[1,2]},`, `null,`}).Draw(t, "extra")
+	leaf := rapid.SampledFrom([]string{`{"type":"Point","coordinates":[1,2]}`, `null`, `{"type":"GeometryCollection","geometries":[]}`, `{}`}).Draw(t, "leaf")
+	doc := strings.Repeat(`{"type":"GeometryCollection","geometries":[`+extra, depth) + leaf + strings.Repeat(`]}`, depth)
+	switch rapid.IntRange(0, 3).Draw(t, "wrap") {
+	case 0:
+		doc = `{"type":"Feature","geometry":` + doc + `,"properties":null}`
+	case 1:
+		doc = `{"type":"FeatureCollection","features":[{"type":"Feature","geometry":` + doc + `,"properties":{}}]}`
+	}
+	if len(doc) > MaxInput {
+		doc = doc[:MaxInput]
+	}
+	return []byte(doc), fmt.Sprintf("chain depth %d", depth)
+}
+
+func genChainBSON(t *rapid.T) ([]byte, string) {
+	depth := rapid.OneOf(rapid.IntRange(1, 40), rapid.IntRange(40, 300)).Draw(t, "depth")
+	var tree interface{} = map[string]interface{}{"type": "Point", "coordinates": []interface{}{1.0, 2.0}}
+	if rapid.Bool().Draw(t, "nullleaf") {
+		tree = nil
+	}
+	tree = wrapGeometryCollection(tree, depth)
+	switch rapid.IntRange(0, 3).Draw(t, "wrap") {
+	case 0:
+		tree = map[string]interface{}{"type": "Feature", "geometry": tree, "properties": nil}
+	case 1:
+		tree = map[string]interface{}{"type": "FeatureCollection", "features": []interface{}{map[string]interface{}{"type": "Feature", "geometry": tree}}}
+	}
+	b, _ := toBSON(tree, rapid.Bool().Draw(t, "ints"))
+	return clip(append([]byte(nil), b...)), fmt.Sprintf("chain depth %d", depth)
+}
+
+func genChainMVT(t *rapid.T) ([]byte, string) {
+	depth := rapid.OneOf(rapid.IntRange(1, 40), rapid.IntRange(40, 4000)).Draw(t, "depth")
+	field := rapid.SampledFrom([]int{3, 3, 2, 4}).Draw(t, "field")
+	body := unhex("12 09 18 01 22 03 09 02 02")
+	// prefixes are computed inside-out without copying the body at every level
+	n := len(body)
+	prefixes := make([][]byte, 0, depth)
+	for k := 0; k < depth && n < MaxInput; k++ {
+		w := &pbW{}
+		w.tag(field, 2)
+		w.varint(uint64(n))
+		prefixes = append(prefixes, w.buf)
+		n += len(w.buf)
+	}
+	out := make([]byte, 0, n)
+	for i := len(prefixes) - 1; i >= 0; i-- {
+		out = append(out, prefixes[i]...)
+	}
+	out = append(out, body...)
+	if rapid.IntRange(0, 3).Draw(t, "gz") == 0 {
+		out = gz(out)
+	}
+	return clip(out), fmt.Sprintf("chain field %d depth %d", field, len(prefixes))
+}
+
+// ---------------------------------------------------------------- long flat inputs
+
+// genLongGeometry builds a geometry whose encodings are about `size` bytes: many points, or many
+// small members (the shape with the largest per-byte overhead in every decoder).
+func genLongGeometry(t *rapid.T, size int) orb.Geometry {
+	pt := func(i int) orb.Point { return orb.Point{float64(i % 97), float64((i * 7) % 89)} }
+	n := size / 20
+	if n < 1 {
+		n = 1
+	}
+	switch rapid.IntRange(0, 8).Draw(t, "longkind") {
+	case 0:
+		ls := make(orb.LineString, n)
+		for i := range ls {
+			ls[i] = pt(i)
+		}
+		return ls
+	case 1:
+		mp := make(orb.MultiPoint, n)
+		for i := range mp {
+			mp[i] = pt(i)
+		}
+		return mp
+	case 2: // many two-point lines
+		m := make(orb.MultiLineString, n/3+1)
+		for i := range m {
+			m[i] = orb.LineString{pt(i), pt(i + 1)}
+		}
+		return m
+	case 3: // many empty lines
+		m := make(orb.MultiLineString, n)
+		for i := range m {
+			m[i] = orb.LineString{}
+		}
+		return m
+	case 4: // one polygon, many small rings
+		p := make(orb.Polygon, n/5+1)
+		for i := range p {
+			p[i] = orb.Ring{pt(i), pt(i + 1), pt(i + 2), pt(i)}
+		}
+		return p
+	case 5: // many small polygons
+		m := make(orb.MultiPolygon, n/5+1)
+		for i := range m {
+			m[i] = orb.Polygon{orb.Ring{pt(i), pt(i + 1), pt(i + 2), pt(i)}}
+		}
+		return m
+	case 6: // many empty polygons
+		m := make(orb.MultiPolygon, n)
+		for i := range m {
+			m[i] = orb.Polygon{}
+		}
+		return m
+	case 7: // collection of many points
+		c := make(orb.Collection, n)
+		for i := range c {
+			c[i] = pt(i)
+		}
+		return c
+	default: // collection of many empty collections / lines
+		c := make(orb.Collection, n)
+		for i := range c {
+			if i%2 == 0 {
+				c[i] = orb.Collection{}
+			} else {
+				c[i] = orb.LineString{}
+			}
+		}
+		return c
+	}
+}
+
+// genLong draws the family and a long (1-60 KiB) valid encoding, then applies at most one byte-level mutation.
+func genLong(t *rapid.T) (string, []byte, string) {
+	fam := rapid.SampledFrom([]string{"wkb", "wkb", "wkt", "geojson", "bson", "mvt"}).Draw(t, "family")
+	size := rapid.OneOf(rapid.IntRange(1000, 8000), rapid.IntRange(8000, 60000)).Draw(t, "size")
+	var d []byte
+	how := "long"
+	switch fam {
+	case "wkb":
+		g := genLongGeometry(t, size)
+		d = safeBytes(func() []byte {
+			if rapid.Bool().Draw(t, "ewkb") {
+				b, _ := ewkb.Marshal(g, 4326)
+				return b
+			}
+			b, _ := wkb.Marshal(g, binary.BigEndian)
+			return b
+		})
+		switch rapid.IntRange(0, 5).Draw(t, "frame") {
+		case 0:
+			d = append([]byte{0xe6, 0x10, 0, 0}, d...)
+			how = "long,srid-prefix"
+		case 1:
+			d = []byte(hex.EncodeToString(d))
+			how = "long,hex"
+		}
+	case "wkt":
+		g := genLongGeometry(t, size)
+		d = safeBytes(func() []byte { return []byte(wkt.MarshalString(g)) })
+	case "geojson", "bson":
+		var tree interface{}
+		switch rapid.IntRange(0, 3).Draw(t, "doc") {
+		case 0, 1:
+			raw := safeBytes(func() []byte { b, _ := geojson.NewGeometry(genLongGeometry(t, size/2)).MarshalJSON(); return b })
+			_ = json.Unmarshal(raw, &tree)
+			if rapid.Bool().Draw(t, "asfeature") {
+				tree = map[string]interface{}{"type": "Feature", "geometry": tree, "properties": map[string]interface{}{"a": 1.0}}
+			}
+		case 2: // feature collection of many small features
+			n := size / 90
+			feats := make([]interface{}, n)
+			for i := range feats {
+				feats[i] = map[string]interface{}{"type": "Feature", "id": float64(i), "geometry": map[string]interface{}{"type": "Point", "coordinates": []interface{}{float64(i), 1.0}},
+					"properties": map[string]interface{}{"k": "v"}}
+			}
+			tree = map[string]interface{}{"type": "FeatureCollection", "features": feats}
+		default: // feature with many / nested properties
+			n := size / 16
+			props := map[string]interface{}{}
+			arr := make([]interface{}, n/2)
+			for i := range arr {
+				arr[i] = []interface{}{}
+			}
+			props["arr"] = arr
+			for i := 0; i < n/8; i++ {
+				props["k"+itoa(i)] = map[string]interface{}{"": nil}
+			}
+			tree = map[string]interface{}{"type": "Feature", "geometry": nil, "properties": props}
+		}
+		if fam == "geojson" {
+			d, _ = json.Marshal(tree)
+		} else {
+			b, _ := toBSON(tree, rapid.Bool().Draw(t, "ints"))
+			d = append([]byte(nil), b...)
+		}
+	default: // mvt: many small features / layers / keys / values
+		tile := &pbW{}
+		switch rapid.IntRange(0, 3).Draw(t, "tile") {
+		case 0: // many empty layers
+			for i := 0; i < size/2; i++ {
+				tile.bytesField(3, nil)
+			}
+		case 1: // one layer, many one-point features with tags
+			layer := &pbW{}
+			layer.bytesField(1, []byte("l"))
+			for i := 0; i < size/16; i++ {
+				f := &pbW{}
+				f.varintField(1, uint64(i))
+				f.bytesField(2, packed([]uint32{0, 0, 0, 1}))
+				f.varintField(3, 1)
+				f.bytesField(4, packed([]uint32{9, zz(i % 50), zz(3)}))
+				layer.bytesField(2, f.buf)
+			}
+			layer.bytesField(3, []byte("k"))
+			v := &pbW{}
+			v.varintField(7, 1)
+			layer.bytesField(4, v.buf)
+			layer.bytesField(4, v.buf)
+			tile.bytesField(3, layer.buf)
+		case 2: // one layer, many keys and values, one feature with many tags
+			layer := &pbW{}
+			n := size / 8
+			for i := 0; i < n; i++ {
+				layer.bytesField(3, nil)
+				v := &pbW{}
+				v.varintField(7, 1)
+				layer.bytesField(4, v.buf)
+			}
+			tags := make([]uint32, n)
+			for i := range tags {
+				tags[i] = uint32(i / 2 % 100)
+			}
+			f := &pbW{}
+			f.bytesField(2, packed(tags))
+			f.varintField(3, 1)
+			f.bytesField(4, packed([]uint32{9, 2, 2}))
+			layer.bytesField(2, f.buf)
+			tile.bytesField(3, layer.buf)
+		default: // one multi-point / line with many vertices
+			n := size / 2
+			geom := []uint32{uint32(n)<<3 | 1}
+			for i := 0; i < n; i++ {
+				geom = append(geom, 2, 2)
+			}
+			f := &pbW{}
+			f.varintField(3, 1)
+			f.bytesField(4, packed(geom))
+			layer := &pbW{}
+			layer.bytesField(2, f.buf)
+			tile.bytesField(3, layer.buf)
+		}
+		d = tile.buf
+		if rapid.IntRange(0, 2).Draw(t, "gz") == 0 {
+			d = gz(d)
+			how = "long,gzip"
+		}
+	}
+	if d == nil {
+		d = []byte{}
+	}
+	if rapid.IntRange(0, 2).Draw(t, "mut") == 0 {
+		var what string
+		d, what = mutateBytes(t, d, nil)
+		how += "," + what
+	}
+	return fam, clip(d), how
+}
